@@ -344,6 +344,27 @@ def run(res, tier):
                                                                                                                    bad[1].get('l') if bad else '', (bad[0].get('q') or '').split('::')[-1] if bad else '', bad[0].get('l') if bad else ''))
     if n_ref < 1:
         raise AnalysisBroken('REF-AFTER-REMOVE: no queue-element reference followed by a removal found (ByteBufferPacketDataIO::ReadFrom expected)')
+    # ---- round-2 additions
+    # message ids wrap around: they are only ever compared for (in)equality
+    fin = fx.fn1(PT + '::DoInputImplementation')
+    rel = [n for n in fin.walk() if n['k'] == 'BinaryOperator' and n.get('op') in ('<', '<=', '>', '>=') and any((x.get('n') or '').lower().replace('_', '') == 'messageid' for x in n.walk())]
+    res.ob('GUARD-ATOMS', fin.where(rel[0]) if rel else fin.where(), 'message ids are compared only with == / != (they wrap around at 2^32)', not rel, function=fin.q, key='GUARD-ATOMS|%s|id-equality-only' % fin.q,
+           message='PacketTunnelIOGateway::DoInputImplementation orders message ids with `%s`: after the sender\'s 32-bit id counter wraps, every new Message looks "older" and the sender is muted for good'
+                   % (rel[0].text(50) if rel else ''))
+    # a packet can be lost: each packet is deflated independently of the previous ones
+    n_df = 0
+    for g_ in sorted((g_ for g_ in fx.funcs.values() if g_.full and re.search(r'PacketTunnelIOGateway::DoOutputImplementation$', g_.q)), key=lambda g_: g_.line):
+        for c in P.calls(g_, r'^muscle::ZLibCodec::Deflate$'):
+            n_df += 1
+            a = c.args()
+            ind = A.strip_casts(a[2]).get('v') if len(a) > 2 else None
+            res.ob('MINI', g_.where(c), '%s deflates every packet independently' % g_.q.split('::')[-2], ind in (1, True), function=g_.q, key='MINI|%s|independent-deflate' % g_.q,
+                   message='%s deflates a packet as a continuation of the previous packets (independent=%s): when a packet is lost or reordered the next one inflates against the wrong history — zlib reports '
+                           'no error at a sync-flush boundary — and the receiver is handed a Message spliced from two sent Messages' % (g_.q, a[2].text(10) if len(a) > 2 else '?'))
+    if n_df < 1:
+        raise AnalysisBroken('MINI: no Deflate call in the packet tunnel senders')
+    from . import C03
+    C03.resume_offset_rule(res, fx, 'RESUME-OFFSET', file_re=r'^dataio/(PacketizedProxyDataIO|ByteBufferPacketDataIO)\.cpp$', floor=1)
     res.explanation = ('Static decision of the tunnel\'s acceptance structure: the operands of the reassembly memcpy are identified (state buffer + wire offset, reader pointer, wire chunk size) and each atom of the '
                        'acceptance test is required on a dominating branch edge — same source-keyed state, message id, offset, total size, overflow test, bounds, bytes available, magic — plus the '
                        'source-exclusion disjunction on every path; a Message starts only at offset 0; hand-off only for a complete buffer; writer/reader header order agrees. '
